@@ -47,7 +47,7 @@ theorem next_step {a : Api} {g : G} (h : IterInv a g) (hl : a.endEmitted = false
     refine ⟨g', hs, ?_⟩
     constructor
     · exact hR
-    · simp [h.cur]
+    · simp
     · intro hne hend
       have := R_end_phase hR hend
       have hev := gStep_phase2 hs (by rw [this])
